@@ -1,7 +1,7 @@
 from amaranth import *
 from amaranth.utils import *
 import amaranth.lib.memory as memory
-from amaranth_types import ShapeLike
+from amaranth_types import ShapeLike, ValueLike
 import amaranth_types.memory as amemory
 
 from transactron.utils.amaranth_ext.elaboratables import OneHotMux
@@ -121,28 +121,28 @@ class MemoryBank(Elaboratable):
         overflow_next = [Signal(self.shape) for _ in range(self.reads_ports)]
         overflow_addr = [Signal(range(self.depth), reset_less=True) for _ in range(self.reads_ports)]
 
+        def after_writes(addr: Value, current: ValueLike) -> Value:
+            # Value of the memory cell `addr` in the next clock cycle, given its current value.
+            # With granularity, each write enable bit forwards only its own part of the word.
+            current = Value.cast(current)
+            parts = len(write_port[0].en) if write_port else 1
+            part_width = len(current) // parts
+            return Cat(
+                OneHotMux.create(
+                    m,
+                    [
+                        (port.en[k] & (port.addr == addr), Value.cast(port.data)[k * part_width : (k + 1) * part_width])
+                        for port in write_port
+                    ],
+                    current[k * part_width : (k + 1) * part_width],
+                )
+                for k in range(parts)
+            )
+
         for i in range(self.reads_ports):
             if self.read_on_resp:
-                read_output_addr_match = [
-                    write_port[j].en & (write_port[j].addr == read_output_addr[i]) for j in range(self.writes_ports)
-                ]
-                overflow_addr_match = [
-                    write_port[j].en & (write_port[j].addr == overflow_addr[i]) for j in range(self.writes_ports)
-                ]
-                m.d.comb += read_output_next[i].eq(
-                    OneHotMux.create(
-                        m,
-                        [(read_output_addr_match[j], write_port[j].data) for j in range(self.writes_ports)],
-                        read_port[i].data,
-                    )
-                )
-                m.d.comb += overflow_next[i].eq(
-                    OneHotMux.create(
-                        m,
-                        [(overflow_addr_match[j], write_port[j].data) for j in range(self.writes_ports)],
-                        overflow_data[i],
-                    )
-                )
+                m.d.comb += read_output_next[i].eq(after_writes(read_output_addr[i], read_port[i].data))
+                m.d.comb += overflow_next[i].eq(after_writes(overflow_addr[i], overflow_data[i]))
                 m.d.sync += overflow_data[i].eq(overflow_next[i])
             else:
                 m.d.comb += read_output_next[i].eq(read_port[i].data)
